@@ -169,6 +169,49 @@ theorem mean_in_arc (a : Mat ℝ r c) (w : Vec ℝ c) (i : Fin r) (hc : 0 < c) (
   rw [mean_eq_arg_resultant a w i (fun _ k => hw k)]
   exact h.2
 
+/-! ## conditioning: why the check's tolerance for a mean scales with `Σ|w| / (resultant length)` -/
+
+/-- Any perturbation of samples and weights that moves the resultant by `η < |R|` moves the mean, as an
+    angle, by at most `(π/2) η / |R|` (multi-column branch; rounding errors of the sums enter the same way). -/
+theorem mean_conditioning_resultant (a a' : Mat ℝ r c) (w w' : Vec ℝ c) (i : Fin r) (hc : c ≠ 1) (η : ℝ)
+    (hη : ‖resultant a' w' i - resultant a w i‖ ≤ η) (hlt : η < ‖resultant a w i‖) :
+    ∃ n : ℤ, |dirMean a' w' i - dirMean a w i - n * (2 * π)| ≤ π / 2 * (η / ‖resultant a w i‖) := by
+  have hR : resultant a w i ≠ 0 := by
+    intro h0; rw [h0, norm_zero] at hlt
+    linarith [norm_nonneg (resultant a' w' i - resultant a w i)]
+  have hpos : 0 < ‖resultant a w i‖ := norm_pos_iff.mpr hR
+  obtain ⟨n, hn⟩ := arg_perturb (resultant a w i) (resultant a' w' i - resultant a w i) hR
+    (lt_of_le_of_lt hη hlt)
+  refine ⟨n, ?_⟩
+  rw [dirMean_multi a' w' i hc, dirMean_multi a w i hc]
+  have e : resultant a w i + (resultant a' w' i - resultant a w i) = resultant a' w' i := by ring
+  rw [e] at hn
+  refine le_trans hn (mul_le_mul_of_nonneg_left ?_ (by positivity))
+  exact div_le_div_of_nonneg_right hη hpos.le
+
+/-- Samples known up to `|a'_k − a_k|` (a double angle `θ` carries `ε|θ|`): the mean is determined, as an
+    angle, up to `(π/2) Σ_k |w_k| |a'_k − a_k| / |R|` — the ill-conditioning of short resultants.  Every
+    shape. -/
+theorem mean_conditioning (a a' : Mat ℝ r c) (w : Vec ℝ c) (i : Fin r)
+    (hlt : ∑ k, |w k| * |a' i k - a i k| < ‖resultant a w i‖) :
+    ∃ n : ℤ, |dirMean a' w i - dirMean a w i - n * (2 * π)|
+      ≤ π / 2 * ((∑ k, |w k| * |a' i k - a i k|) / ‖resultant a w i‖) := by
+  by_cases h1 : c = 1
+  · subst h1
+    rw [resultant_one, norm_mul, Complex.norm_real, Complex.norm_exp_ofReal_mul_I, mul_one,
+      Real.norm_eq_abs, Fin.sum_univ_one] at *
+    have hw : 0 < |w 0| := lt_of_le_of_lt (mul_nonneg (abs_nonneg _) (abs_nonneg _)) hlt
+    rw [dirMean_one, dirMean_one]
+    obtain ⟨k', hk'⟩ := wrap_congr (a' i 0)
+    obtain ⟨k, hk⟩ := wrap_congr (a i 0)
+    refine ⟨k' - k, ?_⟩
+    rw [hk', hk]
+    have : a' i 0 + k' * (2 * π) - (a i 0 + k * (2 * π)) - ((k' - k : ℤ) : ℝ) * (2 * π) = a' i 0 - a i 0 := by
+      push_cast; ring
+    rw [this, mul_div_cancel_left₀ _ hw.ne']
+    nlinarith [abs_nonneg (a' i 0 - a i 0), Real.pi_gt_three]
+  · exact mean_conditioning_resultant a a' w w i h1 _ (resultant_perturb a a' w i) hlt
+
 /-- non-vacuity of `mean_in_arc` / `mean_const`: two samples 0.2 apart straddling the branch cut,
     weights 1/2, centre π, half-width 0.1 -/
 example : ∃ (a : Mat ℝ 1 2) (w : Vec ℝ 2) (m δ : ℝ), δ < π / 2 ∧ (∀ k, 0 < w k) ∧ 0 < ∑ k, w k ∧
